@@ -3,6 +3,7 @@ package main
 import (
 	"encoding/json"
 	"fmt"
+	"math/rand"
 	"runtime"
 	"sort"
 	"sync"
@@ -19,7 +20,7 @@ type c01 struct{}
 func (*c01) ID() string    { return "C01" }
 func (*c01) Level() string { return "exploration" }
 func (*c01) Rule() string {
-	return "seeded random pure programs (1-4 predicates, arity 0-3, 1-4 clauses, nested compound/list/partial-list arguments, shared variables, recursion, nested ';', call/N, variable goals) + a fixed family of classic programs at several sizes, each run on the engine and on an independent reference SLD interpreter; answer sequences, termination and final status compared. Non-trivial: the reference produced >=1 answer AND backtracked into >=1 untried clause alternative; distinct by hash of program+query."
+	return "seeded random pure programs (1-4 predicates, arity 0-3, 1-4 clauses, nested compound/list/partial-list arguments, shared variables, recursion, nested ';', call/N, variable goals) + a fixed family of classic programs at several sizes + every sixth random program once more in the form \"load, run the query once, then define one predicate that other clauses call again by a later Exec text, run the query\" (expected: the answers of the program as it stands after the second text), each run on the engine and on an independent reference SLD interpreter; answer sequences, termination and final status compared. Non-trivial: the reference produced >=1 answer AND backtracked into >=1 untried clause alternative; distinct by hash of program+query."
 }
 func (*c01) Assumptions() []string {
 	return []string{
@@ -71,11 +72,95 @@ func (c *c01) Generate(cx *Ctx, chunk int) []*Item {
 				qv = []int64{}
 			}
 			metas = append(metas, &DiffMeta{Program: cl, Query: q, NVars: nv, QVars: qv, Max: 25, Family: "generated", Assert: i%10 == 9})
+			if i%6 == 3 {
+				if rd := c01Redefined(g.r, cl, q, nv, qv); rd != nil {
+					metas = append(metas, rd)
+				}
+			}
 		} else {
 			metas = append(metas, classicCase(cx, i-nGen))
 		}
 	}
 	return prepareDiffItems(metas, refBudgetGenerated, ref.Options{})
+}
+
+// c01Redefined: the program is loaded, the query is run once (a directive), THEN one predicate that other clauses call is
+// defined again by a later Exec text (which replaces its clauses): the query must be answered from the program as it
+// stands now, whatever the first run left behind in the clauses that were not reloaded.
+func c01Redefined(r *rand.Rand, cl []*term.Term, q *term.Term, nv int, qv []int64) *DiffMeta {
+	head := func(c *term.Term) *term.Term {
+		if c.IsCmp(":-", 2) {
+			return c.Args[0]
+		}
+		return c
+	}
+	pi := func(h *term.Term) string { return fmt.Sprintf("%s/%d", h.S, len(h.Args)) }
+	byPI := map[string][]*term.Term{}
+	var order []string
+	for _, c := range cl {
+		if c.IsCmp(":-", 1) {
+			return nil // declarations: not for this family
+		}
+		k := pi(head(c))
+		if byPI[k] == nil {
+			order = append(order, k)
+		}
+		byPI[k] = append(byPI[k], c)
+	}
+	// predicates called from the body of a clause of another predicate
+	var called []string
+	for _, k := range order {
+		used := false
+		for _, c := range cl {
+			if !c.IsCmp(":-", 2) || pi(head(c)) == k {
+				continue
+			}
+			var walk func(t *term.Term)
+			walk = func(t *term.Term) {
+				if t.K == term.KCmp || t.K == term.KAtom {
+					if pi(t) == k {
+						used = true
+					}
+					for _, a := range t.Args {
+						walk(a)
+					}
+				}
+			}
+			walk(c.Args[1])
+		}
+		if used {
+			called = append(called, k)
+		}
+	}
+	if len(called) == 0 {
+		return nil
+	}
+	k := called[r.Intn(len(called))]
+	old := byPI[k]
+	var fresh []*term.Term
+	for i := len(old) - 1; i >= 0; i-- {
+		fresh = append(fresh, old[i])
+	}
+	if len(fresh) > 1 {
+		fresh = fresh[1:]
+	} else {
+		fresh = append(fresh, fresh[0])
+	}
+	// the old program must let the warm-up run end
+	pre := &DiffMeta{Program: cl, Query: q, NVars: nv, QVars: qv, Max: 25}
+	if o, err := pre.refRun(refBudgetGenerated, ref.Options{}); err != nil || o.M.Unsupported != "" || o.OutOfBudget || !(o.Exhausted || o.Err != nil) {
+		return nil // the warm-up directive enumerates every answer: the search has to end
+	}
+	var now []*term.Term
+	for _, c := range cl {
+		if pi(head(c)) != k {
+			now = append(now, c)
+		}
+	}
+	now = append(now, fresh...)
+	warm := ":- catch((" + term.Text(q, qvar) + ", fail ; true), _, true)."
+	return &DiffMeta{Program: now, Query: q, NVars: nv, QVars: qv, Max: 25, Family: "redefined",
+		SetupOverride: []string{programText(cl), warm, programText(fresh)}}
 }
 
 // prepareDiffItems runs the reference first (in parallel) so that each case carries a step budget derived
@@ -138,7 +223,11 @@ func (c *c01) Judge(cx *Ctx, it *Item, outs []*run.Outcome) Verdict {
 	if r.Prefix {
 		v.Extra["prefix_cases"] = 1
 	}
-	if m.Family != "generated" {
+	switch m.Family {
+	case "generated":
+	case "redefined":
+		v.Extra["redefined_after_a_first_run_cases"] = 1
+	default:
 		v.Extra["classic_cases"] = 1
 	}
 	if m.Assert {
